@@ -348,7 +348,15 @@ def run_case(case, ctx, full_output=True):
     x = np.array(xs, dtype=float).reshape(shape) if shape else float(xs[0])
     if case.get('int_x') and all(float(v).is_integer() for v in xs):
         # the same point handed over as Python / numpy integers (only if the program itself accepts integers there)
-        xi = np.array(xs, dtype=int).reshape(shape) if shape else int(xs[0])
+        # (as Python ints / int64, or in a narrow integer dtype: int8, int16, uint8 for non-negative points, int32)
+        narrow = [None, None, np.int8, np.int16, np.int32, np.uint8][int(abs(xs[0])) % 6]
+        if narrow is np.uint8 and min(xs) < 0:
+            narrow = np.int8
+        if narrow is not None:
+            xi = np.array(xs, dtype=narrow).reshape(shape) if shape else narrow(int(xs[0]))
+            ctx.count('integer_typed_x_in_a_narrow_dtype')
+        else:
+            xi = np.array(xs, dtype=int).reshape(shape) if shape else int(xs[0])
         try:
             with np.errstate(all='ignore'):
                 same = np.allclose(np.asarray(f(np.asarray(xi)), dtype=complex), np.asarray(f(x), dtype=complex), rtol=1e-13, atol=0, equal_nan=True)
